@@ -86,6 +86,14 @@ def allformat_read_campaign(ctx, stride=1, nops=30, channels=(1, 2, 3), route_sk
         blk = [j for j in jobs if R.block_hint(j[0]) > 1]
         gran = [j for j in jobs if R.block_hint(j[0]) <= 1]
         jobs = blk + gran[rng.randrange(stride)::stride]
+    # staging-buffer boundaries: every kernel of a sample-granular codec stages through a fixed 8192-byte buffer (8192 / 4096 / 2048 / 1024 items per pass);
+    # one long mono file per codec (WAV / AU first) makes the sequential reference read and the large requests of the history cross it, so that a slip at a
+    # chunk boundary of ONE kernel (one codec x one caller type) shows as a `data` clause against the reads that do not cross it
+    seen = set()
+    for f in sorted(fs, key=lambda f: (f.major not in (0x01, 0x03), f.major)):
+        if R.block_hint(f) <= 1 and getattr(f, "granular", False) and f.codec not in seen:
+            seen.add(f.codec)
+            jobs.append((f, 1, 9000))
     ws = [("%s-c%d-n%d-%d" % (f.name, ch, n, i), R.write_phase(rng, f, ch, n)) for i, (f, ch, n) in enumerate(jobs)]
     out = ctx.batch(ws)
     findings, stats, tests = [], collections.Counter(), []
@@ -116,7 +124,7 @@ def allformat_read_campaign(ctx, stride=1, nops=30, channels=(1, 2, 3), route_sk
         ctx.distinct.add("fmt:" + f.name)
     out2 = ctx.batch([(n, t) for (n, f, ch, F, info, t) in tests])
     # THE PREDICATE: Sf.Abs.check (lean/SfModel/Abs.lean) judges every transcript; the Python checker runs beside it as a cross-check
-    from . import abslean
+    from . import abslean, absreplay
     judge = abslean.Judge(ctx)
     starts = {}
     for (name, f, ch, F, info, t) in tests:
@@ -132,6 +140,8 @@ def allformat_read_campaign(ctx, stride=1, nops=30, channels=(1, 2, 3), route_sk
         for fail in v.fails[:2]:
             line, text, cat = abslean.describe(fail, 1, script.strip().split("\n"))
             findings.append(Finding("pred", name, script, line, text, cat, f, ch))
+            # the replay re-judges with `sfmodel abs` (vlib/absreplay.py)
+            findings[-1].replay_text = absreplay.plain_replay(script, line, abslean.geom_line(ch, 0, "w"), 1, clause=fail[1])
     if tests:
         t0 = tests[len(tests) // 2]
         ctx.notes["allformat_example"] = {"name": t0[0], "frames": t0[3], "script": t0[5][-900:], "implementation_transcript_tail": out2.get(t0[0], [])[-4:]}
@@ -143,9 +153,11 @@ def allformat_read_campaign(ctx, stride=1, nops=30, channels=(1, 2, 3), route_sk
         v = verdicts[name]
         sl = t.strip().split("\n")
         lean = [abslean.describe(fail, starts[name], sl) for fail in v.fails]
-        for (k, text, cat) in lean[:3]:
+        for (k, text, cat), fail in list(zip(lean, v.fails))[:3]:
             py = [p[1] for p in probs if p[0] == k]
             findings.append(Finding("pred", name, t, k, text + (" | python predicate: " + py[0] if py else ""), cat, f, ch))
+            findings[-1].replay_text = absreplay.read_test_replay(
+                t, k, abslean.geom_line(ch, F, "r", seekable=info.get("seekable", True), bw=R.raw_bw(f, ch) or 0), ch, F, clause=fail[1])
         for (k, text, cat) in probs[:3]:
             if cat == "crash":
                 findings.append(Finding("crash", name, t, k, text, cat, f, ch))
